@@ -270,7 +270,9 @@ pub fn tree_eq(a: &R, ta: &[u8], b: &R, tb: &[u8], path: &mut String) -> Result<
         (K::Null, K::Null) => Ok(()),
         (K::Bool(x), K::Bool(y)) if x == y => Ok(()),
         (K::Num(x), K::Num(y)) => {
-            if x == y {
+            let la = &ta[a.start..a.end];
+            let lb = &tb[b.start..b.end];
+            if x == y || num_agrees(*x, *y, lb) || num_agrees(*y, *x, la) {
                 Ok(())
             } else {
                 Err(format!(
